@@ -38,7 +38,7 @@ def pool(ctx, n):
             {"a": {1, 2, 3}, "b": frozenset("xyz")}, {"k%d" % i: i for i in range(12)},
             [genvalues.verif_nat.Plain(a=1), genvalues.verif_nat.Plain(a=1), genvalues.verif_nat.Plain(a=1)],
             {genvalues.verif_nat.Plain(x=i) for i in range(4)}, bytearray(b"abc"), [complex(1, 2), bytearray(b"x")],
-            [range(3), slice(1, 2)]]
+            [range(3), slice(1, 2)], [1.5, -0.0], [0.0, 2.5], {"z": -0.0, "o": [0.0, 1, True, 1.0]}]
     for v in vals:
         for proto in (0, 2, 4):
             out.append(pickle.dumps(v, protocol=proto))
@@ -62,7 +62,7 @@ def child_tables(ctx, datas):
         outp = os.path.join(ctx.tmp, f"ans_{name}.json")
         env = dict(os.environ, PYTHONHASHSEED=seed, PYTHONPATH=os.pathsep.join(
             [ROOT] + ([os.environ["VERIF_REPO"]] if os.environ.get("VERIF_REPO") else [])))
-        procs.append((name, outp, subprocess.Popen([sys.executable, "-m", "harness.c13child", pj, outp],
+        procs.append((name, outp, subprocess.Popen([sys.executable, "-m", "harness.c13child", pj, outp] + (["reverse"] if name == "fresh2" else []),
                                                    cwd=ROOT, env=env, stdout=subprocess.PIPE, stderr=subprocess.STDOUT)))
     for name, outp, pr in procs:
         o, _ = pr.communicate(timeout=1200)
